@@ -634,14 +634,22 @@ func (f *FuncVC) sliceOp(st *State, x *ssa.Slice) *Val {
 	return f.freshTyped(st, x.Type(), "slice")
 }
 
-const maxAlloc = "1152921504606846976" // 2^60: makeslice panics beyond this for any element size
+// A-MEM: no slice has more than 2^40 elements (every make is checked against
+// this bound, so the assumption is maintained by verified code), and a single
+// allocation is at most 2^48 bytes (the gc runtime limit on amd64).
+const maxElems = "1099511627776"
+const maxAllocBytes = "281474976710656"
 
 func (f *FuncVC) makeSlice(st *State, x *ssa.MakeSlice) *Val {
 	ln := f.val(st, x.Len)
 	cp := f.val(st, x.Cap)
 	src := f.srcAt(x.Pos())
-	f.oblige(st, "make", src, and(cmp("<=", "0", ln.T), cmp("<=", ln.T, cp.T), cmp("<=", cp.T, maxAlloc)))
 	et := x.Type().Underlying().(*types.Slice).Elem()
+	esz := types.SizesFor("gc", "amd64").Sizeof(et)
+	if esz < 1 {
+		esz = 1
+	}
+	f.oblige(st, "make", src, and(cmp("<=", "0", ln.T), cmp("<=", ln.T, cp.T), cmp("<=", cp.T, maxElems), cmp("<=", arith("*", cp.T, num(esz)), maxAllocBytes)))
 	p := f.allocObject(st, types.NewArray(et, 0), types.NewPointer(types.NewArray(et, 0)))
 	r := &Val{K: KSlice, Ty: x.Type()}
 	r.Fs = []*Val{vInt(p.Fs[0].T, nil), vInt("0", nil), vInt(ln.T, nil), vInt(cp.T, nil)}
